@@ -246,6 +246,10 @@ class RF:
     def atoms(self):
         return self.n.atoms() | self.d.atoms()
 
+    def is_const_like(self):
+        r = reduce_rf(self)
+        return r.n.is_const() and r.d.is_const()
+
 
 def _rewrite_poly(p, cx):
     """Apply sqrt(u)^2 -> u and cos(t)^2 -> 1 - sin(t)^2 once; returns (RF, changed)."""
